@@ -312,8 +312,14 @@ def run_signal_case(case, v):
                 a_ = int(rng.integers(0, L // 2))
                 b_ = int(rng.integers(L // 2 + 2, L + 1))
                 nt = np.array(s.times[a_:b_])
-            else:
+            elif r_ < 0.85:
                 nt = s.times[0] + np.arange(-5, L + 5) * dt
+            elif r_ < 0.93:
+                # as many samples as before, the whole grid moved by a fraction of a step up to a few steps (nanoseconds at most)
+                nt = np.array(s.times, float) + float(rng.uniform(0.05, 4) * rng.choice([-1, 1])) * dt
+            else:
+                # as many samples as before from the same start, the step stretched or squeezed
+                nt = s.times[0] + np.arange(L) * dt * float(rng.uniform(0.6, 1.6))
             old = sh.times
             s = s.with_times(nt)
             sh = sh.copy()
